@@ -75,9 +75,16 @@ def layout_case(draw, ctx):
     def nested_not_first(ms):
         return any(m['kind'] in ('nested', 'nested_array', 'anon') for m in ms[1:]) or any(
             m['kind'] in ('nested', 'nested_array') and nested_not_first(types[int(m['type'][1:])]['members']) for m in ms[:1])
+    def union_with_zero_width(t):
+        if t['union'] and any(m['kind'] == 'bf0' for m in t['members']):
+            return True
+        return any(m['kind'] in ('nested', 'nested_array') and union_with_zero_width(types[int(m['type'][1:])]) for m in t['members'])
+    # gcc 12 ignores a zero-width bit-field when it classifies a struct but not when it classifies a union (the psABI
+    # says "ignored"): such unions are laid out and printed, but not passed by value - the reference is ambiguous
     # F55: nested aggregates that do not start an eightbyte are misclassified (recorded finding)
     eligible = [i for i in range(ntypes) if not (ctx.excluded('F53') and has_ld(types[i]['members']))
-                and not (ctx.excluded('F55') and nested_not_first(types[i]['members']))]
+                and not (ctx.excluded('F55') and nested_not_first(types[i]['members']))
+                and not union_with_zero_width(types[i])]
     sigs = []
     for _ in range(draw(st.integers(1, 4)) if eligible else 0):
         a = draw(st.sampled_from(eligible))
